@@ -107,3 +107,41 @@ def register(mut):
     mut('pool-resume-raw-handle', 'thread_pool.h',
         '''            enqueue([sp = suspend_point<void>(spt.pop())]() mutable {sp.clear();});''',
         '''            enqueue([h = spt.pop()]() mutable {coro_queue::resume(h);});''', ['C11'])
+    mut('gen-done-never-set', 'generator.h',
+        '''        void return_void() {
+            _done = true;
+        }''',
+        '''        void return_void() {
+        }''', ['C13'])
+    mut('gen-future-prefers-value', 'generator.h',
+        '''            if (done()) return _awaiting(drop);
+            else if (_exp) return _awaiting(_exp);
+            else return _awaiting(*_ret);''',
+        '''            if (done()) return _awaiting(drop);
+            else if (_ret) return _awaiting(*_ret);
+            else return _awaiting(_exp);''', ['C13'])
+    mut('gen-arg-not-updated', 'generator.h',
+        '''        void set_arg(param_Arg arg) {
+            _arg = &arg;
+        }''',
+        '''        void set_arg(param_Arg arg) {
+            static auto first = &arg;
+            _arg = first;
+        }''', ['C13'])
+    mut('gen-final-keeps-ret', 'generator.h',
+        '''        yield_suspend final_suspend() noexcept {
+            _ret = nullptr;
+            return {};''',
+        '''        yield_suspend final_suspend() noexcept {
+            return {};''', ['C13'])
+    mut('gen-sync-block-not-reset', 'generator.h',
+        '''            _block.store(false, std::memory_order::relaxed);''',
+        '''            ''', ['C13'])
+    mut('gen-iterator-skips', 'iterator.h',
+        '''    generator_iterator &operator++() {
+        _next = _gen->next();
+        return *this;''',
+        '''    generator_iterator &operator++() {
+        _next = _gen->next();
+        if (_next && false) _next = _gen->next();
+        return *this;''', [])
